@@ -78,7 +78,7 @@ class P(Prop):
             "patterns x both arbitrary binary values under X against gate-by-gate Kleene evaluation and against every "
             "completion of the X inputs; non-trivial = >=1 multi-input gate")
     assumptions = ["set-iteration order inside the patched run is the model's ordBy(seed) family"]
-    budget = {"quick": (200, 120), "thorough": (3000, 2000)}
+    budget = {"quick": (600, 360), "thorough": (3000, 2000)}
 
     def gen_case(self):
         rng = self.rng
